@@ -27,6 +27,50 @@ class Poison:
     __hash__ = None
 
 
+class Opaque:
+    """a value about which nothing is known (a local that a loop carries from one iteration to the next and that the
+    unit's loop contract does not describe): every comparison, identity test or truth test on it may go either way -
+    an over-approximation, so whatever the code derives from it is checked for both outcomes"""
+
+    _pyvc_sym = True
+
+    def __init__(self, what):
+        self._what = what
+
+    def _any(self, label):
+        from .values import fresh_bool
+
+        return fresh_bool(f"{self._what}.{label}", register=False)
+
+    def __eq__(self, o):
+        return self._any("eq")
+
+    def __ne__(self, o):
+        return self._any("ne")
+
+    def sym_is(self, o):
+        return self._any("is")
+
+    def __bool__(self):
+        return ctx().branch(tbool_(self._any("truth")), f"{self._what}.truth")
+
+    __hash__ = None
+
+    def __repr__(self):
+        return f"Opaque({self._what})"
+
+    def __getattr__(self, name):
+        if name.startswith("__") or name.startswith("sym_") or name.startswith("_pyvc"):
+            raise AttributeError(name)
+        raise Unsupported(f"attribute {name!r} of an undescribed loop-carried value: {self._what}")
+
+
+def tbool_(x):
+    from .values import tbool
+
+    return tbool(x)
+
+
 class SDecoded:
     """result of bytes.decode(): opaque text that remembers the bytes it came from"""
 
